@@ -44,6 +44,9 @@ func (fr *Frame) checkWrite(st *State, in ssa.Instruction, it locItem, what stri
 
 func (fr *Frame) checkWriteAgainst(st *State, in ssa.Instruction, it locItem, what string, wc *writeConstraint) {
 	var alts []*Term
+	if it.kind == "ghost" && wc.what == "loop-frame" {
+		return // ghost effects are checked against the function frame only (loops havoc ghosts wholesale)
+	}
 	if it.obj != nil && it.kind != "maptype" {
 		alts = append(alts, Ge(it.obj, wc.nextAt))
 	}
@@ -75,6 +78,7 @@ func (fr *Frame) loopName(l *Loop) string {
 func (fr *Frame) evalLoopInv(l *Loop, c *Clause, st *State) *Term {
 	ev := fr.evalCtx(st, fr.entry)
 	ev.at = l.header
+	ev.loopEntry = l.preState
 	return fr.safeEvalBool(ev, c)
 }
 
@@ -187,6 +191,7 @@ func (fr *Frame) loopHead(l *Loop, st *State) {
 	fc := fr.fc
 	lname := fr.loopName(l)
 	pos := fc.eng.fset.Position(l.minPos)
+	l.preState = st.clone()
 	// 1. invariants hold on entry (phis currently hold the entry values)
 	for _, c := range fr.loopInvariants(l) {
 		fc.oblige(st, "inv-entry", fr.path+lname, fr.evalLoopInv(l, c, st), pos, "loop invariant holds on entry: "+c.Text)
@@ -199,6 +204,7 @@ func (fr *Frame) loopHead(l *Loop, st *State) {
 			}
 		}
 	}
+	l.preState = st.clone()
 	// 2. modifies set, evaluated in the pre-loop state
 	var items []locItem
 	explicit := false
@@ -288,8 +294,9 @@ func (fr *Frame) loopHead(l *Loop, st *State) {
 	}
 	l.entryPhi = entryPhi
 	// vacuity guard: the loop head must be reachable under the assumed invariants
-	if l.spec != nil && len(fr.loopInvariants(l)) > 0 {
-		fc.covers = append(fc.covers, &Obligation{Name: fmt.Sprintf("%s/%s%scover#head", fc.key, fr.path, lname), Kind: "cover", Func: fc.key,
+	if l.spec != nil && len(fr.loopInvariants(l)) > 0 && len(fr.unrolling) == 0 {
+		fc.kindCount[fr.path+lname+"cover"]++
+		fc.covers = append(fc.covers, &Obligation{Name: fmt.Sprintf("%s/%s%scover#head%d", fc.key, fr.path, lname, fc.kindCount[fr.path+lname+"cover"]), Kind: "cover", Func: fc.key,
 			NFacts: len(fc.sc.facts), NegGoal: st.reach.S, Script: fc.sc, Pos: pos, Desc: "loop head reachable under the assumed invariants (invariants not contradictory)"})
 	}
 	// 5. variant
